@@ -146,7 +146,19 @@ def binding_selftest(ctx, events, cfg):
     # 2. an answer delivered with another request's token
     oks = [k for k, e in enumerate(first) if e["ev"] == "Reply" and e["kind"] == "ok" and e.get("t")]
     # 3. a reply without the backend answer that justifies it
-    ans = next((k for k, e in enumerate(first) if e["ev"] == "Answer" and e["o"] == "ok"), None)
+    # (an answer whose removal must show: the only answer its request ever got, to its own execution and not to a re-PREPARE,
+    # and the client did get "ok")
+    owner, nans, ansreq = {}, {}, {}
+    for k, e in enumerate(first):
+        if e["ev"] == "Take":
+            owner[(e["b"], e["bs"])] = (e.get("r"), e.get("op"))
+        elif e["ev"] == "Answer":
+            r, op = owner.get((e["b"], e["bs"]), (None, None))
+            nans[r] = nans.get(r, 0) + 1
+            ansreq[k] = (r, op)
+    okreplied = {e.get("r") for e in first if e["ev"] == "Reply" and e.get("kind") == "ok"}
+    ans = next((k for k, e in enumerate(first) if e["ev"] == "Answer" and e["o"] == "ok" and ansreq[k][0] is not None
+                and ansreq[k][1] != "PREPARE" and nans.get(ansreq[k][0]) == 1 and ansreq[k][0] in okreplied), None)
     variants = {}
     if i is not None:
         variants["duplicate-reply"] = (first[:i + 1] + [first[i]] + first[i + 1:], "C01")
